@@ -32,8 +32,10 @@ ASSUMPTIONS = [
     "a standard CLEAR_FEATURE that carries an IN data stage (wLength != 0, malformed) need not be stalled at the data-"
     "stage token, only at its status stage (the statement's 'or'); every other unsupported request must be stalled "
     "at its FIRST opportunity",
-    "a further SETUP arrives only after the previous request saw its status stage and a subsequent ACK "
-    "(a SETUP that interrupts a request is property C07)",
+    "a further SETUP arrives only after the host finished the previous request: its OUT status stage was answered "
+    "(IN data requests), or its status-stage IN was stalled or its ZLP ACKed while that IN token was still current; "
+    "a PRECEDING SET_ADDRESS/SET_CONFIGURATION/CLEAR_FEATURE has no IN data stage (a SETUP that interrupts an "
+    "unfinished request is property C07)",
     "tx.ready free every cycle; active_config symbolic constant",
 ]
 BOUNDS = "BMC from reset, all 8 setup bytes symbolic per request, two consecutive requests; quick K=12, thorough K=18"
@@ -77,6 +79,7 @@ class UnsupportedHarness(Harness):
         self.rx_rfr = self.inp("rx_ready_for_response", 1)
         self.rx_inv = self.inp("rx_invalid", 1)
         self.cfg = self.inp("active_config", 8, const=True)
+        self.a_prev = self.assume("preceding_request_well_formed")
         self.v = {n: self.viol(n) for n in ("no_data", "no_ack", "no_state_change", "stall_first", "stall_status")}
         self.c = {n: self.cover(n) for n in ("stall_at_data", "stall_at_status", "nonstandard_stalled",
                                              "clear_feature_stalled", "second_request_stalled", "std_unimplemented",
@@ -97,13 +100,15 @@ class UnsupportedHarness(Harness):
         stage_status = Signal(name="stage_status")      # a status_requested has been seen for this request
         ack_after = Signal(name="ack_after_status")
         nreq = Signal(2, name="nreq")
-        may_setup = ~have | (stage_status & ack_after)
+        complete = Signal(name="prev_complete")
+        may_setup = ~have | complete
         setup_now = Signal(name="setup_now")
         m.d.comb += setup_now.eq(self.do_setup & may_setup & ~received)
         m.d.usb += received.eq(setup_now)
         with m.If(setup_now):
             m.d.usb += [F[n].eq(self.f_in[n]) for n in F]
-            m.d.usb += [have.eq(1), stage_status.eq(0), ack_after.eq(0), nreq.eq(Mux(nreq == 3, 3, nreq + 1))]
+            m.d.usb += [have.eq(1), stage_status.eq(0), ack_after.eq(0), complete.eq(0),
+                        nreq.eq(Mux(nreq == 3, 3, nreq + 1))]
         m.d.comb += [
             st.recipient.eq(F["recipient"]), st.type.eq(F["type"]), st.is_in_request.eq(F["is_in"]),
             st.request.eq(F["request"]), st.value.eq(F["value"]), st.index.eq(F["index"]), st.length.eq(F["length"]),
@@ -146,8 +151,21 @@ class UnsupportedHarness(Harness):
         ]
         with m.If(status_req):
             m.d.usb += stage_status.eq(1)
-        with m.If(stage_status & self.ack_in & ~setup_now):
-            m.d.usb += ack_after.eq(1)
+        # when has the host finished a request?  IN data stage: the OUT status stage was answered.  Otherwise: the
+        # status-stage IN was stalled, or its ZLP was ACKed while that IN token is still the current token.
+        zlp_pending = Signal(name="zlp_pending")
+        with m.If(setup_now | new_token):
+            m.d.usb += zlp_pending.eq(0)
+        with m.Elif(status_req & ~has_in_data & ~sh.handshakes_out.stall):
+            m.d.usb += zlp_pending.eq(1)
+        with m.If(~setup_now):
+            with m.If(status_req & (has_in_data | sh.handshakes_out.stall)):
+                m.d.usb += complete.eq(1)
+            with m.If(zlp_pending & self.ack_in & ~new_token):
+                m.d.usb += [complete.eq(1), ack_after.eq(1)]
+        # a preceding SET_ADDRESS / SET_CONFIGURATION / CLEAR_FEATURE is well formed (no IN data stage)
+        regwrite = (F["type"] == 0) & ((F["request"] == 1) | (F["request"] == 5) | (F["request"] == 9))
+        m.d.comb += self.a_prev.eq(~(setup_now & have & regwrite & has_in_data))
 
         # --- the statement's predicate
         std = F["type"] == 0
